@@ -165,6 +165,8 @@ func parseValue(d *jx.Decoder) (pcommon.Value, bool, error) {
 				return err
 			}
 			if !ok {
+				// null is an element too: keep its place.
+				slice.AppendEmpty()
 				return nil
 			}
 			item := slice.AppendEmpty()
@@ -183,6 +185,8 @@ func parseValue(d *jx.Decoder) (pcommon.Value, bool, error) {
 				return err
 			}
 			if !ok {
+				// null is a member too: keep its key.
+				m.PutEmpty(k)
 				return nil
 			}
 			item := m.PutEmpty(k)
